@@ -13,6 +13,23 @@ class AnalysisError(Exception):
     """The analysis cannot decide (vanished anchor, unrecognised shape).  exit 2."""
 
 
+class Abstract:
+    """Marker base class of rule-supplied abstract objects: the folder reads their attributes and calls their methods."""
+
+
+class _FuncReturn(Exception):
+    def __init__(self, value: T.Any):
+        self.value = value
+
+
+class _LoopBreak(Exception):
+    pass
+
+
+class _LoopContinue(Exception):
+    pass
+
+
 class CannotFold(AnalysisError):
     pass
 
@@ -361,11 +378,19 @@ class Program:
             if isinstance(base_, _pl.PurePath) and node.attr in ("name", "suffix", "stem", "suffixes", "parent", "parts"):
                 return getattr(base_, node.attr)
             import types as _ty
-            if isinstance(base_, _ty.SimpleNamespace) and hasattr(base_, node.attr):
+            if isinstance(base_, (_ty.SimpleNamespace, Abstract)) and hasattr(base_, node.attr):
                 return getattr(base_, node.attr)          # a symbolic record supplied through env
             raise CannotFold(f"attribute not foldable: {unparse(node)}")
         if isinstance(node, ast.Call):
             fn = node.func
+            # methods of rule-supplied abstract objects
+            if isinstance(fn, ast.Attribute) and not (env is not None and unparse(fn) in env.get("__stubs__", {})):
+                try:
+                    recv_ = f(fn.value)
+                except CannotFold:
+                    recv_ = None
+                if isinstance(recv_, Abstract) and callable(getattr(recv_, fn.attr, None)):
+                    return getattr(recv_, fn.attr)(*[f(a) for a in node.args], **{k.arg: f(k.value) for k in node.keywords if k.arg})
             # str methods on folded receivers
             if isinstance(fn, ast.Attribute) and fn.attr in ("lstrip", "rstrip", "strip", "lower", "upper", "split", "keys", "values", "items", "replace", "startswith", "endswith", "join", "format", "zfill", "rjust", "ljust", "title", "capitalize",
                                                              "partition", "rpartition", "rsplit", "splitlines", "casefold", "isdigit", "find", "rfind", "index", "count"):
@@ -399,6 +424,11 @@ class Program:
                     return {"str": str, "int": int, "bool": bool, "abs": abs}[cname](v_)
                 except (ValueError, TypeError):
                     raise CannotFold(f"conversion fails: {unparse(node)[:60]}")
+            if cname in ("enumerate", "zip", "range", "reversed") and not any(k.arg is None for k in node.keywords):
+                try:
+                    return list({"enumerate": enumerate, "zip": zip, "range": range, "reversed": reversed}[cname](*[f(a) for a in node.args], **{k.arg: f(k.value) for k in node.keywords}))
+                except TypeError:
+                    raise CannotFold(f"{cname} not foldable: {unparse(node)[:60]}")
             if cname == "getattr" and len(node.args) in (2, 3) and not node.keywords:
                 import types as _ty2
                 obj_, nm_ = f(node.args[0]), f(node.args[1])
@@ -484,10 +514,14 @@ class Program:
             except (KeyError, IndexError, TypeError):
                 raise CannotFold(f"subscript fails: {unparse(node)[:60]}")
         if isinstance(node, ast.BoolOp):
-            vals = [f(v) for v in node.values]          # constants: evaluation order / short-circuit do not matter
-            res = vals[0]
-            for v in vals[1:]:
-                res = (res and v) if isinstance(node.op, ast.And) else (res or v)
+            res = f(node.values[0])                     # Python's own short-circuit: later operands may only be defined when reached
+            for v in node.values[1:]:
+                if isinstance(node.op, ast.And):
+                    if not res:
+                        return res
+                elif res:
+                    return res
+                res = f(v)
             return res
         if isinstance(node, ast.UnaryOp) and isinstance(node.op, ast.Not):
             return not f(node.operand)
@@ -513,6 +547,20 @@ class Program:
             if isinstance(op, (ast.Is, ast.IsNot)) and r is None:
                 return (l is None) == isinstance(op, ast.Is)
         raise CannotFold(f"expression not foldable: {unparse(node)[:80]}")
+
+    def run_body(self, fn: "FunctionInfo", env: T.Dict[str, T.Any]) -> T.Tuple[T.Any, T.List[T.Any]]:
+        """Evaluate the body of `fn` with the folder for the given (abstract) argument values: (return value, yielded values).
+        Raises CannotFold for anything outside the folder's statement and expression kinds."""
+        body = [st for st in fn.node.body if not (isinstance(st, ast.Expr) and isinstance(st.value, ast.Constant))]
+        env["__yields__"] = []
+        env["__return__"] = True
+        try:
+            self._propagate(fn.module, body, env, fn.fq)
+        except _FuncReturn as r:
+            return r.value, env["__yields__"]
+        except (_LoopBreak, _LoopContinue):
+            raise CannotFold(f"break/continue outside a loop: {fn.fq}")
+        return None, env["__yields__"]
 
     def _propagate(self, mod: Module, stmts: T.List[ast.stmt], env: T.Dict[str, T.Any], who: str, depth: int = 0) -> None:
         """Constant propagation through the statements of a table-building helper (see fold)."""
@@ -549,11 +597,38 @@ class Program:
                     it = list(it.keys())
                 for item in list(it):
                     _bind(st.target, item, env)
-                    self._propagate(mod, st.body, env, who, depth + 1)
+                    try:
+                        self._propagate(mod, st.body, env, who, depth + 1)
+                    except _LoopBreak:
+                        break
+                    except _LoopContinue:
+                        continue
             elif isinstance(st, ast.If):
                 self._propagate(mod, st.body if self.fold(mod, st.test, env) else st.orelse, env, who, depth + 1)
             elif isinstance(st, (ast.Pass, ast.Assert)):
                 continue
+            elif isinstance(st, ast.Expr) and isinstance(st.value, ast.Yield) and "__yields__" in env:
+                env["__yields__"].append(self.fold(mod, st.value.value, env) if st.value.value is not None else None)
+            elif isinstance(st, ast.Expr) and isinstance(st.value, ast.YieldFrom) and "__yields__" in env:
+                env["__yields__"].extend(list(self.fold(mod, st.value.value, env)))
+            elif isinstance(st, ast.While) and not st.orelse:
+                for _k in range(64):
+                    if not self.fold(mod, st.test, env):
+                        break
+                    try:
+                        self._propagate(mod, st.body, env, who, depth + 1)
+                    except _LoopBreak:
+                        break
+                    except _LoopContinue:
+                        continue
+                else:
+                    raise CannotFold(f"loop bound exceeded: {who}")
+            elif isinstance(st, ast.Return) and "__return__" in env:
+                raise _FuncReturn(self.fold(mod, st.value, env) if st.value is not None else None)
+            elif isinstance(st, ast.Break):
+                raise _LoopBreak()
+            elif isinstance(st, ast.Continue):
+                raise _LoopContinue()
             else:
                 raise CannotFold(f"helper not foldable: {who} (statement `{unparse(st)[:50]}`)")
 
